@@ -83,7 +83,7 @@ def run_batch(mname, seed, tier, indices, watchdog):
     import gc
     try:
         agg = {"runs": 0, "events": 0, "ticks": 0, "steps": 0, "sched": 0, "faults": {}, "probes": {},
-               "keys": set(), "digests": {}, "violations": {}, "viol_counts": {}, "nviol_runs": 0}
+               "keys": set(), "digests": {}, "outs": {}, "violations": {}, "viol_counts": {}, "nviol_runs": 0}
         for i in indices:
             rng = engine.run_rng(seed, mname, i)
             plan = machine.gen(rng, tier)
@@ -106,6 +106,8 @@ def run_batch(mname, seed, tier, indices, watchdog):
                 # violations are re-executed from their replay file in a fresh
                 # interpreter (same violation and same digest required) instead
                 agg["digests"][i] = out["digest"]
+                if getattr(machine, "cross_interpreter_outputs", False):
+                    agg["outs"][i] = out["outs"]
             seen_here = set()
             for v in out["violations"]:
                 k = sig_key(v["signature"])
@@ -177,7 +179,7 @@ def explore(machine, seed, tier, nruns, nproc, first=0):
                     raise HarnessError("batch of machine %s failed: %s: %s" % (mname, type(e).__name__, e))
     wall = time.time() - t0
     tot = {"runs": 0, "events": 0, "ticks": 0, "steps": 0, "sched": 0, "faults": {}, "probes": {}, "keys": set(),
-           "digests": {}, "violations": {}, "viol_counts": {}, "nviol_runs": 0, "wall": wall}
+           "digests": {}, "outs": {}, "violations": {}, "viol_counts": {}, "nviol_runs": 0, "wall": wall}
     for r in results:
         for k in ("runs", "events", "ticks", "steps", "sched", "nviol_runs"):
             tot[k] += r[k]
@@ -187,6 +189,7 @@ def explore(machine, seed, tier, nruns, nproc, first=0):
             tot["probes"][k] = tot["probes"].get(k, 0) + v
         tot["keys"].update(r["keys"])
         tot["digests"].update(r["digests"])
+        tot["outs"].update(r.get("outs", {}))
         for k, v in r["viol_counts"].items():
             tot["viol_counts"][k] = tot["viol_counts"].get(k, 0) + v
         for k, lst in r["violations"].items():
@@ -202,14 +205,7 @@ def _worker_init_light():
     gc.disable()
 
 
-def selftest_digests(machine, seed, tier, digests, sample, hashseed="4242"):
-    """Re-execute a sample of runs in a fresh interpreter under another
-    PYTHONHASHSEED, in reverse order, single process; digests must agree."""
-    idx = sorted(digests)[:]
-    if not idx:
-        return 0
-    step = max(1, len(idx) // sample)
-    pick = idx[::step][:sample]
+def _digests_subprocess(machine, seed, tier, pick, hashseed):
     env = dict(os.environ)
     env["PYTHONHASHSEED"] = hashseed
     env["DSIM_NO_REEXEC"] = "1"
@@ -218,11 +214,33 @@ def selftest_digests(machine, seed, tier, digests, sample, hashseed="4242"):
     p = subprocess.run(cmd, env=env, capture_output=True, text=True, timeout=1800)
     if p.returncode != 0:
         raise HarnessError("self-test subprocess failed (%d): %s" % (p.returncode, p.stderr[-2000:]))
-    got = json.loads(p.stdout.strip().splitlines()[-1])
-    bad = [i for i in pick if got.get(str(i)) != digests[i]]
+    return json.loads(p.stdout.strip().splitlines()[-1])
+
+
+def selftest_digests(machine, seed, tier, digests, sample, hashseed="4242", outs=None, mismatches=None):
+    """Re-execute a sample of runs in a fresh interpreter under another PYTHONHASHSEED, in reverse order, single
+    process.  Run digests must agree (else the harness is nondeterministic: exit 2).  For machines whose property is
+    reproducibility, the recorded library outputs must agree too: a difference there is a violation of the property
+    (appended to ``mismatches`` as (run, step index))."""
+    idx = sorted(digests)[:]
+    if not idx:
+        return 0
+    step = max(1, len(idx) // sample)
+    pick = idx[::step][:sample]
+    got = _digests_subprocess(machine, seed, tier, pick, hashseed)
+    bad = [i for i in pick if got["digests"].get(str(i)) != digests[i]]
     if bad:
         raise HarnessError("harness nondeterministic: machine %s seed %d runs %s give different digests in a fresh interpreter "
                            "(PYTHONHASHSEED=%s)" % (machine.name, seed, bad[:10], hashseed))
+    if outs is not None and mismatches is not None:
+        for i in pick:
+            a, b = outs.get(i), got["outs"].get(str(i))
+            if a is None or b is None:
+                continue
+            for x, y in zip(a, b):
+                if x != y:
+                    mismatches.append((i, x[0]))
+                    break
     return len(pick)
 
 
@@ -239,6 +257,21 @@ def write_replay(prop, machine, seed, run, plan, violation, digest):
         json.dump(doc, f, indent=1, sort_keys=True, default=engine._default)
         f.write("\n")
     return path
+
+
+def replay_cross_interpreter(path):
+    """Replay of a NOT_REPRODUCIBLE/differs_between_interpreters violation: the plan's library outputs in fresh
+    interpreters under fixed, different PYTHONHASHSEEDs must differ."""
+    res = []
+    for hs in ("0", "1", "2", "3", "4242"):
+        env = dict(os.environ)
+        env["PYTHONHASHSEED"] = hs
+        env["DSIM_NO_REEXEC"] = "1"
+        p = subprocess.run([sys.executable, os.path.join(VERIF, "bin", "check"), "outs", path], env=env, capture_output=True, text=True, timeout=900)
+        if p.returncode != 0:
+            raise HarnessError("outs subprocess failed: %s" % p.stderr[-1000:])
+        res.append(p.stdout.strip().splitlines()[-1])
+    return len(set(res)) > 1
 
 
 def replay_file(path, quiet=False):
@@ -301,7 +334,28 @@ def cmd_run(prop, tier, seed, nproc, runs_override=None, only=None):
         # determinism self-test
         nself = int(os.environ.get("DSIM_SELFTEST", "24" if tier == "quick" else "64"))
         if nself > 0:
-            selftested += selftest_digests(m, seed, tier, tot["digests"], nself)
+            mism = []
+            selftested += selftest_digests(m, seed, tier, tot["digests"], nself, outs=tot["outs"], mismatches=mism)
+            seen_sims = set()
+            for (ri, sj) in mism:
+                plan = m.gen(engine.run_rng(seed, m.name, ri), tier)
+                plan["machine"] = m.name
+                st = plan["steps"][sj]
+                simname = st.get("sim", "?") if isinstance(st, dict) else "?"
+                if simname in seen_sims:
+                    continue
+                seen_sims.add(simname)
+                plan["steps"] = [st]
+                sig = {"class": "NOT_REPRODUCIBLE", "sim": simname, "what": "differs_between_interpreters"}
+                v = {"class": "NOT_REPRODUCIBLE", "signature": sig, "step": 0,
+                     "message": "%s: the same call from the same generator state returns another result in another interpreter "
+                                "(PYTHONHASHSEED); the result depends on string hashing / set order" % simname}
+                kf = match_known(known, prop, sig)
+                if kf is not None:
+                    e = known_hits.setdefault(id(kf), [kf, 0])
+                    e[1] += 1
+                    continue
+                new_violations.append((m, sig_key(sig), {"run": ri, "plan": plan, "violation": v}, 1))
         # samples
         for i in sorted(tot["digests"])[:2]:
             rng = engine.run_rng(seed, m.name, i)
@@ -323,6 +377,14 @@ def cmd_run(prop, tier, seed, nproc, runs_override=None, only=None):
     budget = float(os.environ.get("DSIM_MINIMISE_S", "40"))
     for n, (m, key, entry, count) in enumerate(new_violations):
         plan = entry["plan"]
+        if entry["violation"]["signature"].get("what") == "differs_between_interpreters":
+            path = write_replay(prop, m, seed, entry["run"], plan, entry["violation"], "")
+            ok, txt = replay_in_fresh_interpreter(path)
+            if not ok:
+                raise HarnessError("cross-interpreter replay %s does not reproduce:\n%s" % (path, txt[-2000:]))
+            violation_lines.append("VIOLATION property=%s replay=%s" % (prop, path))
+            log("violation %s: %s" % (key, entry["violation"]["message"][:300]))
+            continue
         if n < max_min:
             try:
                 plan = engine.minimise(m, plan, key, time_budget=budget, log=log)
@@ -413,15 +475,35 @@ def main(argv):
             mname, seed, tier, idx = argv[1], int(argv[2]), argv[3], [int(x) for x in argv[4].split(",") if x]
             _worker_init_light()
             m = get_machine(mname)
-            out = {}
+            out = {"digests": {}, "outs": {}}
             for i in idx:
                 rng = engine.run_rng(seed, mname, i)
                 plan = m.gen(rng, tier)
                 plan["machine"] = mname
-                out[str(i)] = engine.execute(m, plan)["digest"]
+                o = engine.execute(m, plan)
+                out["digests"][str(i)] = o["digest"]
+                out["outs"][str(i)] = o["outs"]
             print(json.dumps(out))
             return 0
+        if cmd == "outs":
+            # library outputs of a replay file's plan in THIS interpreter (used by cross-interpreter replays)
+            with open(argv[1]) as f:
+                doc = json.load(f)
+            m = get_machine(doc["machine"])
+            plan = {"machine": doc["machine"], "config": doc["config"], "initial": doc["initial"], "steps": doc["steps"]}
+            print(json.dumps(engine.execute(m, plan)["outs"]))
+            return 0
         if cmd == "replay":
+            with open(argv[1]) as f:
+                doc0 = json.load(f)
+            if doc0["violation"]["signature"].get("what") == "differs_between_interpreters":
+                if replay_cross_interpreter(argv[1]):
+                    print("REPRODUCED class=NOT_REPRODUCIBLE digest=same")
+                    print("message: %s" % doc0["violation"]["message"])
+                    print("VIOLATION property=%s replay=%s" % (doc0["property"], os.path.abspath(argv[1])))
+                    return 1
+                print("NOT-REPRODUCED (outputs identical under PYTHONHASHSEED 0,1,2,3,4242)")
+                return 0
             doc, out, v, same = replay_file(argv[1])
             if v is not None:
                 print("REPRODUCED class=%s digest=%s" % (v["class"], "same" if same else "different"))
